@@ -27,4 +27,19 @@ def run(tier, seed):
     })
 
 def replay(path):
-    print(open(path).read()); return 0
+    import json
+    rec = json.load(open(path))
+    case = (rec.get('cases') or [{}])[0] or {}
+    print(json.dumps(rec, indent=1)[:3000])
+    zone = case.get('zone')
+    if not zone:
+        return 0
+    exe = build_driver('c07_localtime.cpp', 'fast')
+    n = 0
+    for db in ('zonedbx', 'zonedb'):
+        opath = db_oracle(db)[0]
+        res = run_shards(exe, ['--db=' + db, '--oracle=' + opath, '--zone=' + zone], nshards=1, tier='quick', seed=0, timeout=600)
+        for k, d in res.violations[:10]:
+            print('REPRODUCED', k, json.dumps(d)); n += 1
+    print('replay of zone %s: %d violation(s) on the current tree' % (zone, n))
+    return 1 if n else 0
